@@ -62,6 +62,15 @@ static void snapshot(std::string& o, FSM::Instance& fsm) {
 	o += ",\"hst\":";  jarr(o, RC, [&](int r) { o += '['; jint(o, (int) pd.headStatuses[r].result); o += ','; jint(o, pd.headStatuses[r].outerTransition); o += ']'; });
 	o += ",\"sst\":";  jarr(o, RC, [&](int r) { o += '['; jint(o, (int) pd.subStatuses[r].result); o += ','; jint(o, pd.subStatuses[r].outerTransition); o += ']'; });
 	o += ",\"tasks\":"; jint(o, pd.tasks.count());
+	// the raw storage behind the plans: region bounds, per-slot links and the slots themselves (0 = INVALID)
+	constexpr long TC = FSM::Args::TASK_CAPACITY;
+	auto idx1 = [](hfsm2::Long v) -> long { return v == hfsm2::INVALID_LONG ? 0 : (v < 100000 ? (long) v + 1 : 100000); };
+	o += ",\"tb\":"; jarr(o, RC, [&](int r) { o += '['; jint(o, idx1(pd.taskBounds[r].first)); o += ','; jint(o, idx1(pd.taskBounds[r].last)); o += ']'; });
+	o += ",\"tl\":"; jarr(o, (int) TC, [&](int i) { o += '['; jint(o, idx1(pd.taskLinks[i].prev)); o += ','; jint(o, idx1(pd.taskLinks[i].next)); o += ']'; });
+	o += ",\"ts\":"; jarr(o, (int) TC, [&](int i) {
+		const auto& t = pd.tasks[(hfsm2::Long) i];
+		if ((unsigned) t.type >= (unsigned) hfsm2::TransitionType::COUNT || t.origin >= N || t.destination >= N) { o += "[0,0,\"none\",0]"; return; }
+		jtask(o, t); });
 #else
 	o += ",\"plans\":"; jarr(o, RC, [&](int) { o += "[]"; });
 	o += ",\"pex\":";  jarr(o, RC, [&](int) { jint(o, 0); });
@@ -70,6 +79,8 @@ static void snapshot(std::string& o, FSM::Instance& fsm) {
 	o += ",\"hst\":";  jarr(o, RC, [&](int) { o += "[0,0]"; });
 	o += ",\"sst\":";  jarr(o, RC, [&](int) { o += "[0,0]"; });
 	o += ",\"tasks\":0";
+	o += ",\"tb\":"; jarr(o, RC, [&](int) { o += "[0,0]"; });
+	o += ",\"tl\":[],\"ts\":[]";
 #endif
 #ifdef HFSM2_ENABLE_STRUCTURE_REPORT
 	o += ",\"hist\":"; jarr(o, N, [&](int s) { jint(o, fsm.activityHistory()[s]); });
@@ -114,7 +125,7 @@ static void scriptJson(std::string& o, const Script& sc) {
 			else if (op.t == "succeed" || op.t == "fail") { o += ','; jint(o, op.a[0]); }
 			else if (op.t == "plan_append") { o += ','; jint(o, op.a[0]); o += ','; jint(o, op.a[1]); o += ','; jint(o, op.a[2]); o += ','; jstr(o, op.k); o += ','; jint(o, op.a[3]); }
 			else if (op.t == "plan_clear")  { o += ','; jint(o, op.a[0]); }
-			else if (op.t == "plan_remove") { o += ','; jint(o, op.a[0]); o += ','; jint(o, op.a[1]); }
+			else if (op.t == "plan_remove" || op.t == "plan_sweep") { o += ','; jint(o, op.a[0]); o += ','; jint(o, op.a[1]); }
 			o += ']';
 		}
 		o += "]]";
@@ -132,7 +143,7 @@ static Op parseOp(const std::string& tok) {
 	if (op.t == "req") { op.k = f[1]; op.a[0] = atoi(f[2].c_str()); op.a[1] = atoi(f[3].c_str()); }
 	else if (op.t == "succeed" || op.t == "fail" || op.t == "plan_clear") op.a[0] = atoi(f[1].c_str());
 	else if (op.t == "plan_append") { op.a[0] = atoi(f[1].c_str()); op.a[1] = atoi(f[2].c_str()); op.a[2] = atoi(f[3].c_str()); op.k = f[4]; op.a[3] = atoi(f[5].c_str()); }
-	else if (op.t == "plan_remove") { op.a[0] = atoi(f[1].c_str()); op.a[1] = atoi(f[2].c_str()); }
+	else if (op.t == "plan_remove" || op.t == "plan_sweep") { op.a[0] = atoi(f[1].c_str()); op.a[1] = atoi(f[2].c_str()); }
 	return op;
 }
 
@@ -171,6 +182,7 @@ static void apiCall(Slot& sl, int slotId, const std::string& label, bool logOn, 
 		o += ",\"ev\":["; o += p.ev; o += "]";
 		o += ",\"post\":"; o += post;
 		o += ",\"draws\":"; jint(o, p.draws);
+		o += ",\"plog\":["; o += p.plog; o += "]";
 		o += ",\"quiet\":"; o += p.quiet ? "true" : "false"; o += ",\"allocs\":"; jint(o, p.quiet ? allocs : 0);
 		o += ",\"size\":"; jint(o, (long) sizeof(FSM::Instance));
 		o += ",\"buf\":["; o += sl.buf; o += "],\"ret\":"; jint(o, sl.ret);
@@ -306,9 +318,10 @@ static int run() {
 #ifdef HFSM2_ENABLE_PLANS
 			else if (c == "succeed")  apiCall(sl, cur, labelOf(t), logOn, [&] { fsm.succeed((hfsm2::StateID) (I(1) - 1)); });
 			else if (c == "fail")     apiCall(sl, cur, labelOf(t), logOn, [&] { fsm.fail((hfsm2::StateID) (I(1) - 1)); });
-			else if (c == "pa")       apiCall(sl, cur, labelOf(t), logOn, [&] { planAppend(fsm.plan((hfsm2::RegionID) (I(1) - 1)), I(2), I(3), kindFromName(t[4]), I(5)); });
-			else if (c == "pc")       apiCall(sl, cur, labelOf(t), logOn, [&] { fsm.plan((hfsm2::RegionID) (I(1) - 1)).clear(); });
-			else if (c == "pr")       apiCall(sl, cur, labelOf(t), logOn, [&] { planRemove(fsm.plan((hfsm2::RegionID) (I(1) - 1)), I(2)); });
+			else if (c == "pa")       apiCall(sl, cur, labelOf(t), logOn, [&] { plogAppend(sl.probe, planAppend(fsm.plan((hfsm2::RegionID) (I(1) - 1)), I(2), I(3), kindFromName(t[4]), I(5))); });
+			else if (c == "ps")       apiCall(sl, cur, labelOf(t), logOn, [&] { planSweep(sl.probe, fsm.plan((hfsm2::RegionID) (I(1) - 1)), I(2)); });
+			else if (c == "pc")       apiCall(sl, cur, labelOf(t), logOn, [&] { planClear(sl.probe, fsm.plan((hfsm2::RegionID) (I(1) - 1))); });
+			else if (c == "pr")       apiCall(sl, cur, labelOf(t), logOn, [&] { plogItem(sl.probe, "r", planRemove(fsm.plan((hfsm2::RegionID) (I(1) - 1)), I(2)) ? 1 : 0); });
 #endif
 #ifdef HFSM2_ENABLE_SERIALIZATION
 			else if (c == "save")     apiCall(sl, cur, labelOf(t), logOn, [&] {
